@@ -20,12 +20,17 @@ SHAPES = {
     'plain': ({'cw': 2, 'tw': 4, 'char': ['a', 'ba'], 'type': ['RO'], 'dict': ['ab']}, False),
     'variable': ({'cw': 5, 'tw': 1, 'char': ['a']}, False),
     'cached': ({'cw': 1, 'tw': 1, 'char': ['b'], 'type': ['R', 'H']}, False),
+    # a window of 8 gives a 16-entry (variable-layout) vector whose whole second half may be zero: the trimmed vector fits the fixed layout
+    'window8': ({'cw': 8, 'tw': 1, 'char': ['a'], 'free_tail': 8}, False),
+    # nine tag classes: the bias vector is longer than the fixed layout and may end in zeros
+    'manytags': ({'cw': 1, 'tw': 1, 'char': ['a'], 'free_tail': 1, 'free_tag_bias': 2,
+                  'tags': [{'token': 'a', 'cands': [['p1', 'p2', 'p3', 'p4', 'p5'], ['q1', 'q2', 'q3', 'q4']], 'char': [('a', [0])], 'type': []}]}, True),
     'tagged': ({'cw': 2, 'tw': 2, 'char': ['b'], 'type': ['R'],
                 'tags': [{'token': 'a', 'cands': [['X'], ['p', 'q', 'r']], 'char': [('ba', [0, 1]), ('a', [1])], 'type': [('RR', [0])]},
                          {'token': 'ab', 'cands': [['N', 'V'], []], 'char': [('b', [0, 2])], 'type': []}]}, True),
 }
 BOUNDS = {
-    'quick': {'shapes': sorted(SHAPES), 'weights': 'symbolic i16 weights: the last two weights of the first table entry range over all of i16 incl. 0 (trailing-zero trimming), all others over 1..32767 (so that merged sums cannot cancel to zero and fork the trimming loop)',
+    'quick': {'shapes': sorted(SHAPES), 'weights': 'symbolic i16 weights: the last two (window8: eight; manytags: also the last two tag-bias entries) weights of the first table entry range over all of i16 incl. 0 (trailing-zero trimming), all others over 1..32767 (so that merged sums cannot cancel to zero and fork the trimming loop)',
               'text': '1..2 symbolic characters (1..3 for the variable-layout shape)', 'trailing bytes': '0..2 symbolic bytes'},
     'thorough': {'shapes': sorted(SHAPES), 'weights': 'as quick', 'text': '1..4 symbolic characters', 'trailing bytes': '0..3'},
 }
@@ -47,7 +52,7 @@ def jobs(tier, seed):
             for tr in ((0, 2) if tier == 'quick' else (0, 1, 3)):
                 if tr and n > 1:
                     continue
-                if tier == 'quick' and n == 3 and name != 'variable':
+                if tier == 'quick' and n == 3 and name not in ('variable', 'window8'):
                     continue
                 js.append({'name': 'serde/%s/n%d/t%d' % (name, n, tr), 'shape': name, 'n': n, 'trailing': tr})
     js.sort(key=lambda j: -j['n'])
@@ -60,8 +65,11 @@ def build(e, prog, shape, tags, ntrail):
     free = set()
     for tab in (ms.char, ms.type, ms.dict):
         if tab:
-            free.update(id(x) for x in tab[0][1][-2:])
+            free.update(id(x) for x in tab[0][1][-shape.get('free_tail', 2):])
             break
+    if shape.get('free_tag_bias'):
+        # the last entries of the first tag model's bias vector may be zero as well
+        free.update(id(x) for x in ms.tag_models[0]['bias'][-shape['free_tag_bias']:])
     for name, v in ms.vars.items():
         if id(v) not in free and name != 'bias' and type(v.t) is not int:
             e.add(v.t > 0)
